@@ -38,7 +38,7 @@ CHECKS = {
 CHECKS["C10"] = dict(
     category="exploration",
     technique="deterministic simulation: seeded programs with real conditions over probe-controlled state vs reference interpreter; loop hook-free pass/test counting; seeded frequency test",
-    text="Seeded search over generated configurations whose while/if conditions are the real LessThanN, EveryN, ChangeOf (both checkers), OptimumReached and And/Or/Not over state that probe leaves rewrite from small value ranges; (also inside scopes with their own, still empty, best-individual memory; known optima other than 0) every evaluation's truth value, the progress value after every less-than-n test and the exactly-once evaluation of every operand are compared event for event with the reference interpreter. Iteration-bounded loops (n in 0..200, nested in scopes, inner loops in their own scope): exactly n passes, n+1 tests, progress k/n. RandomChance: exact for p in {0,1}, otherwise frequency over >= 20000 seeded draws within 6 sigma + 0.005.",
+    text="Seeded search over generated configurations whose while/if conditions are the real LessThanN, EveryN, ChangeOf (both checkers), OptimumReached and And/Or/Not over state that probe leaves rewrite from small value ranges; (also inside scopes with their own, still empty, best-individual memory; known optima other than 0; a population stack the conditions must not look at; a float-valued state with NaN and infinite values under LessThanN with fractional bounds) every evaluation's truth value, the progress value after every less-than-n test and the exactly-once evaluation of every operand are compared event for event with the reference interpreter. Iteration-bounded loops (n in 0..200, nested in scopes, inner loops in their own scope): exactly n passes, n+1 tests, progress k/n. RandomChance: exact for p in {0,1}, otherwise frequency over >= 20000 seeded draws within 6 sigma + 0.005.",
     note="Oracle: reference interpreter in sim/src/engine/program.rs; change-of is modelled with one memory per observed lens and 'first evaluation reports a change'. The probabilistic clause is a statistical test, not a proof; its tolerance keeps the false-alarm probability below 1e-8 per case.",
     design_ref="5/C10",
 )
@@ -46,7 +46,7 @@ CHECKS["C10"] = dict(
 CHECKS["C15"] = dict(
     category="fault_enumeration",
     technique="deterministic simulation with fault injection: expected-log model vs decoded exports; simulated disk with create/ENOSPC-at-every-offset/short-write/EINTR/flush faults; /dev/full; configuration export of generated trees and all templates",
-    text="Log content: generated configurations with loggers and rule sets, fault-free or with one injected failure, rules that share an entry name over different sources (first fired rule wins); the reference interpreter's expected log must equal the decoded JSON and CBOR exports. Export path: for each exported artefact (json, cbor, ron) the device-full fault is enumerated over every byte offset of the fault-free output, plus create, flush, short-write and EINTR faults on a simulated disk behind the cfg(mahf_verif) I/O seam: Ok(()) implies the bytes on disk decode to the expected content, transient faults must not fail the export; the same against the kernel's /dev/full without a hook. Configuration export: generated trees and all shipped templates serialise, show the pre-order sequence of components and parameters, equal their clone's, differ from a mutated configuration's (a changed subtree, or the same operands under the other Boolean combinator); exporting over an existing longer file leaves exactly the new content. par_experiment's file set under simulated schedules and I/O faults.",
+    text="Log content: generated configurations with loggers and rule sets, fault-free or with one injected failure, rules that share an entry name over different sources (first fired rule wins); the reference interpreter's expected log must equal the decoded JSON and CBOR exports. Export path: for each exported artefact (json, cbor, ron) the device-full fault is enumerated over every byte offset of the fault-free output, plus create, flush, short-write and EINTR faults on a simulated disk behind the cfg(mahf_verif) I/O seam: Ok(()) implies the bytes on disk decode to the expected content, transient faults must not fail the export; the same against the kernel's /dev/full without a hook. Configuration export: generated trees and all shipped templates serialise, show the pre-order sequence of components and parameters, equal their clone's, differ from a mutated configuration's (a changed subtree, or the same operands under the other Boolean combinator; evaluation steps under different identifiers); exporting over an existing longer file leaves exactly the new content. par_experiment's file set under simulated schedules and I/O faults.",
     note="Sampling over logs/configurations; exhaustive over single ENOSPC offsets per artefact. The disk under faults is an in-memory stub; serde_json, ciborium, ron and std::fs are real. After an export returned Err nothing is claimed about the file.",
     design_ref="5/C15",
 )
@@ -64,7 +64,7 @@ CHECKS["C05"] = dict(
 CHECKS["C06"] = dict(
     category="exploration",
     technique="deterministic simulation: call-logging objective vs counter at every evaluation step; missing/wrong evaluator identifier as injected fault; simulated worker pool schedules for the parallel evaluator; thorough tier adds seeded search over Miri-scheduled thread interleavings of the real rayon pool (thread world)",
-    text="At every PopulationEvaluator step of every template run: one objective call per individual of the pre-step population (multiset equality), order and solutions unchanged, all evaluated, counter advanced by the population size (0 for empty population or empty stack); at every step of any component: counter delta == objective calls; at run end: reported evaluations == objective calls and the evaluation budget is overshot by less than the last pass. Faults: evaluator not registered / registered under another identifier => Err, zero objective calls, zero executed steps (template batch and a dedicated identifier batch over Global/A/B). The parallel evaluator runs on 1..8 simulated workers under seeded random, sticky and PCT schedules with the same monitors; a panic inside the pool that the sequential run does not have is a violation. Evaluation steps also run on prepared populations (empty, duplicates, evaluated next to unevaluated) and after a scope whose init hook registered a surrogate evaluator (the caller's evaluator must be back in force), and in a second loop that follows the first in the same scope (one run, one counter). Thorough tier only: the thread world - the same parallel path on the REAL rayon under Miri's seeded scheduler (preemption at basic-block ends, data-race detection on; 4 workloads x 16 Miri seeds), replayable by Miri seed." + _TW_FAULTS,
+    text="At every PopulationEvaluator step of every template run: one objective call per individual of the pre-step population (multiset equality), order and solutions unchanged, all evaluated, counter advanced by the population size (0 for empty population or empty stack); at every step of any component: counter delta == objective calls; at run end: reported evaluations == objective calls and the evaluation budget is overshot by less than the last pass. Faults: evaluator not registered / registered under another identifier => Err, zero objective calls, zero executed steps (template batch and a dedicated identifier batch over Global/A/B). The parallel evaluator runs on 1..8 simulated workers under seeded random, sticky and PCT schedules with the same monitors; a panic inside the pool that the sequential run does not have is a violation. Evaluation steps also run on prepared populations (empty, duplicates, evaluated next to unevaluated) and after a scope whose init hook registered a surrogate evaluator (the caller's evaluator must be back in force; a run that loses a registered evaluator on the way is reported), and in a second loop that follows the first in the same scope (one run, one counter). Thorough tier only: the thread world - the same parallel path on the REAL rayon under Miri's seeded scheduler (preemption at basic-block ends, data-race detection on; 4 workloads x 16 Miri seeds), replayable by Miri seed." + _TW_FAULTS,
     note=_TW_NOTE + " rayon's scheduler is replaced by the simulated pool; interleavings at objective-call and queue granularity.",
     design_ref="5/C06",
 )
@@ -92,14 +92,14 @@ CHECKS["C16"] = dict(
 CHECKS["C18"] = dict(
     category="exploration",
     technique="deterministic simulation: swarm-state monitors after every step of seeded PSO runs",
-    text="After every ParticleVelocitiesUpdate: |v| <= v_max, x_after == x_before + v_after bit-exactly, v_after inside the interval the update rule allows for the inertia weight STORED before the step (an equality when c1 = c2 = 0, which decides that the stored weight is the one used); after the linear mapping: weight == start + (end-start)*progress exactly; personal best == best value the particle was ever evaluated at and never worse; global best == min personal best after every swarm-update block and loop pass; velocities, personal bests and particles have equal length after every step. The progress is checked independently (iterations / n), also under the compound condition evaluations(e) | iterations(n). Fault: a foreign component removes or duplicates a particle between two swarm updates - the next update must refuse. A second batch composes the identifier variants of the PSO components into a two-swarm search (Global and A, own populations, velocities and memories in one state) and compares every swarm's memories with an independently recorded per-particle history, optionally after a scouting phase that recorded a better best individual before the swarms existed; a quarter of the PSO runs use the generic pso() assembly whose velocity update has a weight of its own." + _TW_FAULTS,
+    text="After every ParticleVelocitiesUpdate: |v| <= v_max, x_after == x_before + v_after bit-exactly, v_after inside the interval the update rule allows for the inertia weight STORED before the step (an equality when c1 = c2 = 0, which decides that the stored weight is the one used); after the linear mapping: weight == start + (end-start)*progress exactly; personal best == best value the particle was ever evaluated at and never worse; global best == min personal best after every swarm-update block and loop pass; velocities, personal bests and particles have equal length after every step. The progress is checked independently (iterations / n), also under the compound condition evaluations(e) | iterations(n). Fault: a foreign component removes or duplicates a particle between two swarm updates - the next update must refuse. A second batch composes the identifier variants of the PSO components into a two-swarm search (Global and A, own populations, velocities and memories in one state) and compares every swarm's memories with an independently recorded per-particle history, optionally after a scouting phase that recorded a better best individual before the swarms existed; a quarter of the PSO runs use the generic pso() assembly whose velocity update has a weight of its own. A third batch repeats the swarm monitors while evaluate::Parallel writes the objective values on the simulated pool." + _TW_FAULTS,
     note=_TW_NOTE,
     design_ref="5/C18",
 )
 CHECKS["C19"] = dict(
     category="exploration",
     technique="deterministic simulation: tour/pheromone monitors after every generation and update along seeded ACO runs (reachable pheromone states), extreme-draw buggify; thorough tier adds seeded search over Miri-scheduled thread interleavings of the real rayon pool (thread world)",
-    text="Both ACO templates over 2..8 cities, distance ratios up to 1e12, 0..8 ants, alpha,beta in [0,5] incl. exactly 0 and 1, rho in [0,1] incl. 0 and 1, initial trails incl. exactly 0, up to 200 iterations so that long-evaporated trails are reached: after generation ants+1 tours, each a permutation of all cities starting at 0, unevaluated; after each update the matrix equals (1-rho)*before + deposits recomputed from the rewarded tours on exactly the consecutive-city edges in both directions (purely relative tolerance 1e-9, tour lengths taken from the instance at hand), symmetric, finite, non-negative, max-min: within bounds. Instances include asymmetric ones and units of length 1e-17..1e17. Thorough tier only: the thread world - the same parallel path on the REAL rayon under Miri's seeded scheduler (preemption at basic-block ends, data-race detection on; 4 workloads x 16 Miri seeds), replayable by Miri seed." + _TW_FAULTS,
+    text="Both ACO templates over 2..8 cities, distance ratios up to 1e12, 0..8 ants, alpha,beta in [0,5] incl. exactly 0 and 1, rho in [0,1] incl. 0 and 1, initial trails incl. exactly 0, single-city instances, sparse maps with infinite distances, up to 200 iterations so that long-evaporated trails are reached: after generation ants+1 tours, each a permutation of all cities starting at 0, unevaluated; after each update the matrix equals (1-rho)*before + deposits recomputed from the rewarded tours on exactly the consecutive-city edges in both directions (purely relative tolerance 1e-9, tour lengths taken from the instance at hand), symmetric, finite, non-negative, max-min: within bounds. Instances include asymmetric ones and units of length 1e-17..1e17. Thorough tier only: the thread world - the same parallel path on the REAL rayon under Miri's seeded scheduler (preemption at basic-block ends, data-race detection on; 4 workloads x 16 Miri seeds), replayable by Miri seed." + _TW_FAULTS,
     note=_TW_NOTE,
     design_ref="5/C19",
 )
